@@ -287,7 +287,23 @@ func (rules Rules) Eval(d *Database, q *Query, p Params) (*Ref, error) {
 					return nil, err
 				}
 				keep = keep && m
+			case "logfmt", "line_format":
+				// L9 only, always under a vector aggregation grouped by stream labels the lines never mention, and
+				// never with a bytes function: these stages then neither remove an entry nor change its group
 			case "json":
+				if s.Label == "" {
+					var m map[string]json.RawMessage
+					if json.Unmarshal([]byte(e.Line), &m) == nil {
+						for k := range m {
+							if v := jsonTop(e.Line, k); v != "" {
+								if _, clash := st.Labels[k]; !clash {
+									labels[k] = v
+								}
+							}
+						}
+					}
+					break
+				}
 				if v := jsonTop(e.Line, s.Val); v != "" {
 					labels[s.Label] = v
 				} else {
